@@ -90,3 +90,101 @@ Example c18_nonvacuous :
   map m_id (handled st) = [3; 4; 1; 2; 5; 6] /\ queue st = [] /\ failed st = [] /\
   map m_id (lost st) = [7].
 Proof. vm_compute. repeat split; try reflexivity; discriminate. Qed.
+
+(* ====================================================================== *)
+(* Deepening: ALL thread interleavings (M_MessagingMT.v / P_MessagingMT.v) *)
+(* ====================================================================== *)
+(* Model: any number of poster threads, each a sequential program of posts to local registered
+   destinations, executed one shared-memory access at a time (read _shutdown; read the clock;
+   acquire _post_lock; load, store, re-read msg_queue_count; put (atomic); release), the agent
+   thread (read the shutdown event; atomic get-or-Empty + dispatch), the thread calling
+   clean_shutdown (set the event; set Messaging._shutdown) and the clock.  An execution is ANY
+   list of choices [CTick | CAgent | CCtl | CPost i]; a choice of a finished / blocked /
+   non-existent thread is a no-op.  [mkCfg lock flagfirst] selects the code: [mkCfg true true]
+   is /repo after the two C18 repairs; [false] = the code before the respective repair.
+   The queue order is the tuple order on (msg_type, msg_queue_count, now). *)
+From PyDcop Require M_MessagingMT P_MessagingMT.
+Module MT := M_MessagingMT.
+Module PMT := P_MessagingMT.
+
+(* (1) exactly once, for every configuration and interleaving: the entries put are pairwise
+   distinct posts of the programs (thread, index), each entry put is either still queued or was
+   handed over once, nothing handled was not put, a post is dropped only after Messaging.shutdown,
+   and at quiescence (all programs finished, queue drained) every post of every program has been
+   handled or dropped -- exactly once, by the NoDup. *)
+Theorem mt_delivered_exactly_once : forall c progs ctl sched,
+  let st := MT.exec c progs ctl sched in
+  NoDup (map MT.ident (MT.g_puts st)) /\
+  (forall e, In e (MT.g_puts st) ->
+     nth_error (nth (MT.e_tid e) progs []) (MT.e_seq e)
+       = Some (MT.mkPost (MT.e_dest e) (MT.e_type e) (MT.e_id e))) /\
+  Permutation (MT.g_puts st) (MT.g_handled st ++ MT.g_queue st) /\
+  NoDup (map MT.ident (MT.g_handled st) ++ MT.g_dropped st) /\
+  (MT.g_shut st = false -> MT.g_dropped st = []) /\
+  (MT.quiescent st = true -> forall i k, (k < List.length (nth i progs []))%nat ->
+     In (i, k) (map MT.ident (MT.g_handled st) ++ MT.g_dropped st)).
+Proof. exact PMT.mt_delivered_exactly_once_l. Qed.
+
+(* (2) priority, for every configuration and interleaving: when the agent's get returns [e],
+   every entry put before that get and not yet handed over is >= e in the tuple order, so none
+   has a lower message type. *)
+Theorem mt_priority : forall c progs ctl sched e,
+  let st := MT.exec c progs ctl sched in
+  MT.g_handled (MT.step c st MT.CAgent) = MT.g_handled st ++ [e] ->
+  forall e', In e' (MT.g_puts st) -> ~ In e' (MT.g_handled st) ->
+  PMT.kle e e' /\ MT.e_type e <= MT.e_type e'.
+Proof. exact PMT.mt_priority_l. Qed.
+
+(* (3) FIFO per sender thread and type, with the post lock, for every interleaving: the
+   messages of one thread and one type are handled in the order the thread posted them.  What
+   makes it work is the COUNTER component alone: under the lock each put draws a counter above
+   all earlier puts (the clock component never decides). *)
+Theorem mt_fifo_per_sender_type : forall ff progs ctl sched i ty,
+  let st := MT.exec (MT.mkCfg true ff) progs ctl sched in
+  StronglySorted lt
+    (map MT.e_seq (filter (fun e => Nat.eqb (MT.e_tid e) i && (MT.e_type e =? ty)) (MT.g_handled st))).
+Proof. exact PMT.mt_fifo_per_sender_type_l. Qed.
+
+(* ... and it is false of the code before the repair (fix 1): a thread pre-empted between the
+   load and the store of `msg_queue_count += 1` sets the counter back, and another thread's
+   next message overtakes that thread's own earlier one (no two equal keys involved). *)
+Theorem mt_fifo_unlocked_refuted :
+  exists progs sched i ty,
+    let st := MT.exec (MT.mkCfg false true) progs [] sched in
+    MT.g_tie st = false /\
+    map MT.e_seq (filter (fun e => Nat.eqb (MT.e_tid e) i && (MT.e_type e =? ty)) (MT.g_handled st))
+      = [0; 1; 3; 2]%nat.
+Proof. exact PMT.mt_fifo_unlocked_refuted_l. Qed.
+
+(* (4) clean shutdown, repaired loop, for every interleaving: every entry whose put completed
+   before the shutdown event was set has been handled when the agent thread leaves its loop. *)
+Theorem mt_shutdown_drains : forall lk progs ctl sched1 sched2,
+  let c := MT.mkCfg lk true in
+  let st1 := MT.exec c progs ctl sched1 in
+  let st2 := MT.run c st1 sched2 in
+  MT.g_evt st1 = false -> MT.g_adone st2 = true ->
+  forall e, In e (MT.g_puts st1) -> In e (MT.g_handled st2).
+Proof. exact PMT.mt_shutdown_drains_l. Qed.
+
+(* ... and it is false of the loop before the repair (fix 2): the get finds the queue empty, a
+   post completes, clean_shutdown sets the event, the loop then reads the event and leaves. *)
+Theorem mt_shutdown_oldloop_refuted :
+  exists progs sched1 sched2 e,
+    let c := MT.mkCfg true false in
+    let st1 := MT.exec c progs [MT.SetEvt; MT.SetShut] sched1 in
+    let st2 := MT.run c st1 sched2 in
+    MT.g_evt st1 = false /\ In e (MT.g_puts st1) /\ MT.g_adone st2 = true /\ MT.g_handled st2 = [].
+Proof. exact PMT.mt_shutdown_oldloop_refuted_l. Qed.
+
+(* non-vacuity: two threads contending for the lock, two types, a clean shutdown that lets one
+   post through (its _shutdown test came first) and drops the last one; quiescent, loop left *)
+Example c18_mt_nonvacuous :
+  let progs := [[MT.mkPost 10 20 1; MT.mkPost 10 10 2];
+                [MT.mkPost 11 20 3; MT.mkPost 11 20 4; MT.mkPost 11 20 5]] in
+  let sched := repeat (MT.CPost 0) 3 ++ repeat (MT.CPost 1) 5 ++ repeat (MT.CPost 0) 5 ++ [MT.CTick]
+               ++ repeat (MT.CPost 1) 6 ++ [MT.CAgent; MT.CAgent] ++ repeat (MT.CPost 0) 8 ++ [MT.CCtl]
+               ++ repeat (MT.CPost 1) 2 ++ [MT.CCtl] ++ repeat (MT.CPost 1) 9 ++ repeat MT.CAgent 12 in
+  let st := MT.exec (MT.mkCfg true true) progs [MT.SetEvt; MT.SetShut] sched in
+  map MT.e_id (MT.g_handled st) = [1; 2; 3; 4] /\ map MT.e_cnt (MT.g_puts st) = [1; 2; 3; 4] /\
+  MT.g_dropped st = [(1, 2)]%nat /\ MT.quiescent st = true /\ MT.g_adone st = true.
+Proof. vm_compute. repeat split; reflexivity. Qed.
